@@ -93,6 +93,9 @@ func open(impl string, n uint64, dir string, k int) api {
 func genBlock(r *rng.R, length int, a uint64, ctr *int) []byte {
 	b := make([]byte, length)
 	*ctr++
+	if r.Intn(8) == 0 {
+		return b // an all-zero block (an implementation may be tempted to treat it specially)
+	}
 	switch r.Intn(4) {
 	case 0: // uniform
 		v := byte(1 + r.Intn(255))
